@@ -510,6 +510,11 @@ class FunctionParser(BaseParser):
             self.position_type, r = resolve_forward_type(self.position_type)
         if self.return_type:
             self.return_type, r = resolve_forward_type(self.return_type)
+        # the yield / send / return types taken out of a generator's return annotation
+        for attr in ("generator_yield_type", "generator_send_type", "generator_return_type"):
+            t = getattr(self, attr, None)
+            if t:
+                setattr(self, attr, resolve_forward_type(t)[0])
 
     def wrap(
         self,
